@@ -7,6 +7,7 @@ pub mod c03;
 pub mod c04;
 pub mod c05;
 pub mod c06;
+pub mod c12s;
 pub mod c19;
 pub mod enc;
 pub mod gad;
@@ -32,6 +33,7 @@ fn main() {
             "C05" => c05::replay(&ctx, &sub, &case),
             "C06" => c06::replay(&ctx, &sub, &case),
             "C19" => c19::replay(&ctx, &sub, &case),
+            "C12" => c12s::replay(&ctx, &sub, &case),
             _ => {
                 eprintln!("harness error: pzv-scheme cannot replay property {prop}");
                 2
@@ -69,6 +71,10 @@ fn main() {
         "C06" => {
             c06::run_all(&ctx);
             ctx.finish(c06::RULE, &["thresholds are rigorous concentration bounds (Bernstein / Hoeffding, alpha = 2^-54 per test): detection power is limited to variance errors above roughly 10-30 % and per-bit biases above roughly 3 %", "public keys, LWE-related keys and the binary-FHE keys are built from the same internal routine (glwe_encrypt_sk_internal) and are not sampled separately here"], &[("variance_band_checked", 100), ("compressed", 100)])
+        }
+        "C12" => {
+            c12s::run_all(&ctx);
+            ctx.finish(c12s::RULE, &["scheme-level part of C12/C11 (the HAL-level part is served by pzv-hal); keys are produced with roomy scratch, only the call under audit gets the exact window"], &[("dsize>2", 100), ("cross_radix", 500)])
         }
         "C19" => {
             c19::run_all(&ctx);
